@@ -534,7 +534,6 @@ func (ms *modSet) merge(o *modSet) {
 
 func (x *Exec) scanMods(nodes ...ast.Node) *modSet {
 	ms := &modSet{vars: map[types.Object]bool{}, comps: map[string]Sort{}, imprecise: map[string]bool{}, info: x.info}
-	allocS := SArr(SInt, SBool)
 	var markLV0 func(e ast.Expr)
 	markLV := func(e ast.Expr) {
 		// record which components this lvalue touches; selector and index writes are candidates
@@ -646,7 +645,7 @@ func (x *Exec) scanMods(nodes ...ast.Node) *modSet {
 					markLV(s.Value)
 				}
 			case *ast.DeclStmt:
-				ms.add("alloc", allocS)
+				ms.add("ghost.brk", SInt)
 				if gd, ok := s.Decl.(*ast.GenDecl); ok {
 					for _, sp := range gd.Specs {
 						if vs, ok := sp.(*ast.ValueSpec); ok {
@@ -659,7 +658,7 @@ func (x *Exec) scanMods(nodes ...ast.Node) *modSet {
 					}
 				}
 			case *ast.CompositeLit:
-				ms.add("alloc", allocS)
+				ms.add("ghost.brk", SInt)
 				t := x.typeOf(s)
 				x.markObjCompsIfObj(ms, t)
 				if m, ok := t.Underlying().(*types.Map); ok {
@@ -671,7 +670,7 @@ func (x *Exec) scanMods(nodes ...ast.Node) *modSet {
 				x.scanCallMods(ms, s)
 			case *ast.UnaryExpr:
 				if s.Op == token.AND {
-					ms.add("alloc", allocS)
+					ms.add("ghost.brk", SInt)
 				}
 			}
 			return true
@@ -688,7 +687,7 @@ func (x *Exec) markMapComps(ms *modSet, t types.Type, u *types.Map) {
 	}
 	ms.add("MD."+typeKey(t), SArr(SInt, SArr(ks, SBool)))
 	ms.add("MV."+typeKey(t), SArr(SInt, SArr(ks, vs)))
-	ms.add("alloc", SArr(SInt, SBool))
+	ms.add("ghost.brk", SInt)
 	if isObjType(u.Elem()) {
 		x.markObjComps(ms, u.Elem())
 	}
@@ -769,7 +768,7 @@ func (x *Exec) havocMods(st *State, ms *modSet, tag string) {
 	}
 	if ms.all {
 		for name, t := range st.heap {
-			if name == "alloc" {
+			if name == "ghost.brk" {
 				continue
 			}
 			st.heap[name] = x.c.Fresh(tag+"_"+name, t.sort)
@@ -778,16 +777,11 @@ func (x *Exec) havocMods(st *State, ms *modSet, tag string) {
 	precise := x.preciseLocs(st, ms)
 	for name, srt := range ms.comps {
 		cur := x.heapGet(st, name, srt)
-		if name == "alloc" {
-			// allocation only grows
-			na := x.c.Fresh(tag+"_alloc", cur.sort)
-			r := x.c.Bound("r", SInt)
-			x.assumeGlobal(st, x.c.Forall([]*Term{r}, x.c.Implies(x.c.Select(cur, r), x.c.Select(na, r)), []*Term{x.c.Select(na, r)}))
-			st.heap[name] = na
-			brk := x.heapGet(st, "ghost.brk", SInt)
+		if name == "ghost.brk" {
+			// the allocation frontier only grows
 			nb := x.c.Fresh(tag+"_brk", SInt)
-			x.assumeGlobal(st, x.c.Ge(nb, brk))
-			st.heap["ghost.brk"] = nb
+			x.assumeGlobal(st, x.c.Ge(nb, cur))
+			st.heap[name] = nb
 			continue
 		}
 		if locs, ok := precise[name]; ok {
